@@ -105,6 +105,14 @@ def run(rep, tier, driver):
                 combos.append(("%dd%s%s" % (n, c, suf), c, [("deoxy", (n,)), (sop, ())]))
             elif kind[0] == "e" and n <= infos[c]["ncarbon"]:
                 combos.append(("%de%s%s" % (n, c, suf), c, [("epimer", (n,)), (sop, ())]))
+    # an anhydro bridge combined with an epimer / deoxy / uronic modification of the same residue
+    for c in [x for x in ("Glc", "Gal", "Man", "All", "Tal", "Gul") if infos.get(x, {}).get("anomeric") == 1]:
+        for (x, y) in ((1, 6), (3, 6)):
+            for n in (2, 3, 4):
+                if n in (x, y):
+                    continue
+                combos.append(("%d,%d-Anhydro-%s%de" % (x, y, c, n), c, [("epimer", (n,)), ("anhydro", (x, y))]))
+                combos.append(("%d,%d-Anhydro-%s%dd" % (x, y, c, n), c, [("deoxy", (n,)), ("anhydro", (x, y))]))
     names = sorted(set(jobs) | set(parents) | {c[0] for c in combos})
     res = dict(zip(names, pmap(_smi, names, chunk=4)))
     rep.rule = ("every library sugar (pyranose and furanose entries) x {-ol, -onic, -aric, A, n d (suffix and prefix form) for every free position, N, n e for "
